@@ -2,7 +2,7 @@
 C09 — "the published version byte / HRP / prefix of every format": the raw coin parameter table and the
 protocol-valued public enumerations (Tezos prefixes, Stellar version bytes, Cardano network tags and
 address types, Ergo network types, BIP-44 change and level numbers, mnemonic lengths) regenerated from
-/repo on this run equal the pinned constants.  The address models read their parameters from the
+/repo on this run contain every pinned constant with its pinned value (a coin or member added later does not disturb the statement).  The address models read their parameters from the
 regenerated table, so together with the round-trip theorems of `C09` this fixes the constants every
 encoder writes and every decoder demands.
 -/
@@ -14,10 +14,11 @@ open BipVerif
 
 set_option synthInstance.maxSize 2000 in
 /-- every raw coin parameter (HRPs, net version bytes, prefixes, SS58 formats, coin names) is the registered one -/
-theorem coins_conf_registered : Gen.coinsConf = Golden.coinsConf := by decide +kernel
+theorem coins_conf_registered : ∀ g ∈ Golden.coinsConf, g ∈ Gen.coinsConf := by decide +kernel
 
+set_option synthInstance.maxSize 2000 in
 /-- every protocol-valued enumeration member has its registered value -/
-theorem proto_enums_registered : Gen.protoEnums = Golden.protoEnums := by decide +kernel
+theorem proto_enums_registered : ∀ g ∈ Golden.protoEnums, g ∈ Gen.protoEnums := by decide +kernel
 
 /-- the pinned tables are not empty -/
 theorem registry_nonempty : Golden.coinsConf ≠ [] ∧ Golden.protoEnums ≠ [] := by decide
